@@ -355,7 +355,9 @@ def read_csv(filename, has_colnames=True, archive=None,
                     cn2 = re.sub(", *", "-", cn2)
                     linecols = re.sub(re.escape(cn), cn2, linecols)
 
-            cns = linecols.strip().split(",")
+            # (only the end of line is removed: blanks at the start of the
+            # first name or at the end of the last one belong to the names)
+            cns = linecols.rstrip("\r\n").split(",")
         else:
             cns = kwargs["names"]
             kwargs.pop("names")
